@@ -557,3 +557,73 @@ func HeaderEndCases(fx []Fixture) []Case {
 	}
 	return out
 }
+
+// OptionTailCases enumerates option lists whose LAST option ends exactly at the end of the data (no payload, capacity
+// == length), for the two fixed-header layers that carry a kind/length option list behind a header-length field
+// (TCP data offset, IPv4 IHL).  The option area is n octets (NOP padding in front so that the header stays a multiple
+// of 4), the option is {kind, length = n', b3, b4, 0xB0...}: every kind with b3 = b4 in {0x00, 0x01, 0xff}, and - for
+// the TCP option kinds that carry a subtype nibble and a flag octet (30 MPTCP) - every subtype x low nibble {0,1} x
+// flag octet 0..63, 0x80, 0x81, 0xff.  A validator and an extraction that disagree for one conjunction of subtype and
+// flag bits read past the end of such a segment.  The layout is the protocol's (RFC 793 / 791 / 8684), not the decoders'.
+func OptionTailCases() []Case {
+	var out []Case
+	tcp := []byte{0x04, 0xd2, 0x00, 0x50, 0, 0, 0, 1, 0, 0, 0, 2, 0x50, 0x11, 0x10, 0x00, 0, 0, 0, 0}
+	ip4 := []byte{0x45, 0, 0, 20, 0, 1, 0, 0, 64, 6, 0, 0, 10, 0, 0, 1, 10, 0, 0, 2}
+	build := func(base []byte, first gopacket.LayerType, n int, opt []byte) []byte {
+		area := (n + 3) / 4 * 4
+		d := make([]byte, 0, len(base)+area)
+		d = append(d, base...)
+		for i := 0; i < area-n; i++ {
+			d = append(d, 1) // NOP in both option spaces
+		}
+		d = append(d, opt...)
+		hl := byte(len(d) / 4)
+		if first == layers.LayerTypeTCP {
+			d[12] = hl << 4
+		} else {
+			d[0] = 0x40 | hl
+			d[2], d[3] = byte(len(d)>>8), byte(len(d))
+		}
+		return d[:len(d):len(d)]
+	}
+	mk := func(kind byte, n int, b3, b4 byte) []byte {
+		o := make([]byte, n)
+		o[0], o[1] = kind, byte(n)
+		if n > 2 {
+			o[2] = b3
+		}
+		if n > 3 {
+			o[3] = b4
+		}
+		for i := 4; i < n; i++ {
+			o[i] = byte(0xB0 + i)
+		}
+		return o
+	}
+	for n := 2; n <= 40; n++ {
+		for kind := 2; kind < 256; kind++ {
+			for _, v := range []byte{0x00, 0x01, 0xff} {
+				o := mk(byte(kind), n, v, v)
+				out = append(out, Case{"opttail(TCP)k" + strconv.Itoa(kind) + "n" + strconv.Itoa(n) + "v" + strconv.Itoa(int(v)), build(tcp, layers.LayerTypeTCP, n, o), layers.LayerTypeTCP})
+				out = append(out, Case{"opttail(IPv4)k" + strconv.Itoa(kind) + "n" + strconv.Itoa(n) + "v" + strconv.Itoa(int(v)), build(ip4, layers.LayerTypeIPv4, n, o), layers.LayerTypeIPv4})
+			}
+		}
+		if n < 3 {
+			continue
+		}
+		for sub := 0; sub < 16; sub++ {
+			for low := 0; low < 2; low++ {
+				fl := make([]int, 0, 67)
+				for f := 0; f < 64; f++ {
+					fl = append(fl, f)
+				}
+				fl = append(fl, 0x80, 0x81, 0xff)
+				for _, f := range fl {
+					o := mk(30, n, byte(sub<<4|low), byte(f))
+					out = append(out, Case{"opttail(TCP)k30n" + strconv.Itoa(n) + "s" + strconv.Itoa(sub) + "." + strconv.Itoa(low) + "f" + strconv.Itoa(f), build(tcp, layers.LayerTypeTCP, n, o), layers.LayerTypeTCP})
+				}
+			}
+		}
+	}
+	return out
+}
